@@ -330,7 +330,17 @@ func (x *c13) runUDP(tier string, caseNo int) {
 	}
 	for st := 0; st < steps && len(x.rec.Violations()) == 0; st++ {
 		x.rec.SetStep(st)
-		switch op := rng.Intn(9); {
+		op := rng.Intn(9)
+		if x.ts.bindW[4] == 1 && x.ts.bindW[0] == 0 && rng.Intn(2) == 0 {
+			// blackout: alternate writes and waits long enough for whole transactions to time out
+			_ = write(rng.Intn(npeers))
+			time.Sleep(pick(rng, []time.Duration{7 * time.Second, 31 * time.Second}))
+			_ = write(rng.Intn(npeers))
+			x.rec.FP("writeto/bind-blackout")
+
+			continue
+		}
+		switch {
 		case op < 3: // a few writes (sequential)
 			for k := 0; k < 1+rng.Intn(4); k++ {
 				i := rng.Intn(npeers)
@@ -565,6 +575,11 @@ func runC13(t *testing.T, rng *rand.Rand, rec *sim.Rec, tier string, caseNo int)
 		ts.permW, ts.bindW = [5]int{8, 1, 1, 2, 0}, [5]int{6, 0, 2, 2, 2}
 	default:
 		ts.permW, ts.bindW = [5]int{10, 0, 0, 4, 0}, [5]int{10, 0, 0, 4, 0}
+	}
+	if caseNo%7 == 5 {
+		// ChannelBind blackout: the server never answers a ChannelBind. Whatever the client retries,
+		// it must keep using Send indications - no ChannelData may ever appear.
+		ts.permW, ts.bindW = [5]int{1, 0, 0, 0, 0}, [5]int{0, 0, 0, 0, 1}
 	}
 	srv.SetHandler(ts.handler)
 	logs := sim.NewLogSink()
